@@ -4,3 +4,19 @@ claim("C18", "exploration",
       "Randomised differential run of the real types.Index against a three-valued reference model with all invariants of the statement asserted after every operation; tens of thousands (quick) to millions (thorough) of sequences over a tiny universe so that every collision shape recurs. Holds on the sequences explored, not a proof.",
       "Trusts the reference model in harness/c18 (written from the statement) and Go's math/rand for diversity; sequences are bounded to 30 operations over 4 digests x 3 tags x 2 subjects.",
       "reference-model monitor + invariant assertions over random operation sequences", "DESIGN.md section 5 C18")
+claim("C20", "exploration",
+      "The real cache.Cache is driven by concurrent and sequential workloads (shared and owned keys, ages 0/15/40 ms, counts 0-20, failing, slow and hooked cleanups) while a thread-safe shadow logs every callback; at quiescence every value ever Set must be current, successfully cleaned, or overwritable by a later Set; expiry lower bound, LRU order, size bound and hook balance are asserted with one-sided time bounds. Also run under the race detector at reduced scale.",
+      "Values are unique per Set so a missing value identifies its cleanup; the oracle is sound but incomplete where two Sets of one key overlap (either may be last). Timing bounds are one-sided: load can hide, never create, an alarm.",
+      "callback-shadow monitor + conservation oracle over recorded event logs; LRU/expiry scenario checks; -race rerun", "DESIGN.md section 5 C20")
+claim("C02", "exploration",
+      "Sequential differential histories (push, re-push, tag move, deletes, blob deletes, restarts, reopen as memory-over-directory) with the complete observable snapshot compared against a reference model after every operation: bytes, Content-Length, Docker-Content-Digest and media type of every manifest and blob, byte ranges in three forms, Accept lists in four forms, HEAD; plus manifest size-limit cases at L-1, L, L+1, L+2, 4L with known and unknown length.",
+      "Restarts use the collection-neutral policy (collection effects belong to C05/C06/C10). Differences that are exactly recorded findings K1/K5 are downgraded by signature; the model then adopts the observed state.",
+      "reference-model monitor (sequential differential) + content-addressing monitor G1", "DESIGN.md section 5 C02")
+claim("C03", "exploration",
+      "Same sequential differential driver with tags drawn from the whole tag grammar; after every operation tags/list, every tag's resolution and every manifest's presence are compared with a last-writer-wins model; pagination walks for n in {1,2,3,len-1,len,len+1,1000} must visit every tag exactly once in order; odd n/last values must give 200 with a sorted duplicate-free subset greater than last.",
+      "Model written from the statement; K1/K5 signatures as in C02.",
+      "reference-model monitor (sequential differential) + pagination walker", "DESIGN.md section 5 C03")
+claim("C07", "exploration",
+      "Random artifact histories on subjects that are images, indexes, artifacts or missing, limits from 700 B to 4 MiB, both stores with restarts; after every operation every subject's Link chain is walked unfiltered and per artifactType, twice (second answer from the page cache): set equality with the model, each digest once, descriptor fields as pushed, page sizes within the limit, OCI-Filters-Applied on every filtered response of a non-empty subject, 200 + OCI index for unknown repositories.",
+      "An entry whose own descriptor is within 160 bytes of the limit may be absent (cannot fit); the filter header is demanded only where the subject has referrers (an empty answer is the same with and without a filter).",
+      "reference-model monitor over Link-chain walks", "DESIGN.md section 5 C07")
